@@ -1,5 +1,216 @@
 import RV.Json
+import RV.Model.Validate
+import RV.Oracle.C09V
+/-!
+  Driver for suite `validate`: the Rollout validating webhook.
+
+  input  {"version":"v1beta1"|"v1alpha1","op":"create"|"update"|"other","limit":n,
+          "obj":OBJ,"old":OBJ|null,"store":[{"ns","name","ref","phase"}]}
+  OBJ    {"ns","name","anno","ref":REF|null,"canary":STRAT|null,"blueGreen":STRAT|null}
+  STRAT  {"steps":[STEP],"trs":[TR]|null,"extra":bool}
+  STEP   {"replicas":VAL|null,"traffic":VAL|null,"weight":int|null,"mts":nat|null}
+  VAL    {"i":n} | {"p":n} | {"s":raw}
+  TR     {"service","grace","ingress":{"classType","name"}|null,"gateway":{"route":str|null}|null,
+          "customRefs":[REF]|null}
+  output {"allowed":bool,"code":n,"errs":[sorted error classes]} | {"panic":true}
+
+  op "raw" carries an arbitrary request body; only the totality oracle is evaluated.
+-/
 namespace RV.Drv.Validate
-open Lean RV
-def handle : Handler := fun op _ _ => .error s!"Validate: op {op} not implemented"
+open Lean RV RV.Arith RV.Validate RV.Oracle.C09V
+
+def valOfJson (j : Json) : R IntOrPct :=
+  match jopt j "i", jopt j "p", jopt j "s" with
+  | some v, _, _ => do return .int (← jint v)
+  | _, some v, _ => do return .pct (← jint v)
+  | _, _, some _ => .ok .bad
+  | _, _, _ => .error s!"bad value {j.compress}"
+
+def optM {α} (f : Json → R α) (j : Json) (k : String) : R (Option α) :=
+  match jopt j k with
+  | none => .ok none
+  | some v => do return some (← f v)
+
+def refOfJson (j : Json) : R Ref := do
+  return { apiVersion := ← fStr j "apiVersion", kind := ← fStr j "kind", name := ← fStr j "name" }
+
+def stepOfJson (j : Json) : R Step := do
+  return { replicas := ← optM valOfJson j "replicas", traffic := ← optM valOfJson j "traffic",
+           weight := ← fOptInt j "weight", mts := ← fOptNat j "mts" }
+
+def trOfJson (j : Json) : R TR := do
+  let ing ← optM (fun i => do return ({ classType := ← fStr i "classType", name := ← fStr i "name" } : Ingress)) j "ingress"
+  let gw ← optM (fun g => fOptStr g "route") j "gateway"
+  return { service := ← fStr j "service", grace := ← fInt j "grace", ingress := ing, gateway := gw,
+           customRefs := ← optM (jlistM refOfJson) j "customRefs" }
+
+def stratOfJson (j : Json) : R Strat := do
+  return { steps := (← optM (jlistM stepOfJson) j "steps").getD [], trs := ← optM (jlistM trOfJson) j "trs",
+           extra := ← fBool j "extra" }
+
+structure Obj where
+  ns : String
+  name : String
+  anno : String
+  ref : Option Ref
+  canary : Option Strat
+  blueGreen : Option Strat
+
+def objOfJson (j : Json) : R Obj := do
+  return { ns := ← fStr j "ns", name := ← fStr j "name", anno := ← fStr j "anno",
+           ref := ← optM refOfJson j "ref", canary := ← optM stratOfJson j "canary",
+           blueGreen := ← optM stratOfJson j "blueGreen" }
+
+def Obj.toB (o : Obj) : R RolloutB :=
+  match o.ref with
+  | none => .error "v1beta1 object without ref (the field is a struct)"
+  | some r => .ok { ns := o.ns, name := o.name, ref := r, canary := o.canary, blueGreen := o.blueGreen }
+
+def Obj.toA (o : Obj) : RolloutA :=
+  { ns := o.ns, name := o.name, anno := o.anno, ref := o.ref, canary := o.canary }
+
+def storedOfJson (j : Json) : R Stored := do
+  return { ns := ← fStr j "ns", name := ← fStr j "name", ref := ← optM refOfJson j "ref", phase := ← fStr j "phase" }
+
+def errName : Err → String
+  | .refRequired => "refRequired" | .refKind => "refKind" | .refKindBG => "refKindBG"
+  | .stratEmpty => "stratEmpty" | .stratBoth => "stratBoth" | .canaryNil => "canaryNil"
+  | .styleAnno => "styleAnno" | .stepsEmpty => "stepsEmpty" | .replicasNil => "replicasNil"
+  | .stepBothNil => "stepBothNil" | .replicasBad => "replicasBad" | .partLimit => "partLimit"
+  | .partLimitWeight => "partLimitWeight" | .weightBad => "weightBad" | .trafficBG => "trafficBG"
+  | .trafficCanary => "trafficCanary" | .nonDecr => "nonDecr" | .weightDecr => "weightDecr"
+  | .trMany => "trMany" | .trGrace => "trGrace" | .trService => "trService" | .trUnset => "trUnset"
+  | .trIngress => "trIngress" | .trGateway => "trGateway" | .conflict => "conflict"
+  | .internal => "internal" | .decode => "decode" | .immutRef => "immutRef" | .immutTR => "immutTR"
+  | .immutStyle => "immutStyle" | .immutSteps => "immutSteps"
+
+def insertSorted (s : String) : List String → List String
+  | [] => [s]
+  | x :: xs => if s < x then s :: x :: xs else if s = x then x :: xs else x :: insertSorted s xs
+
+def sortDedup (l : List String) : List String := l.foldl (fun acc s => insertSorted s acc) []
+
+def outcomeJ : Outcome → Json
+  | .allowed => mkObj [("allowed", boolJ true), ("code", natJ 200), ("errs", arrJ [])]
+  | .denied c errs => mkObj [("allowed", boolJ false), ("code", natJ c),
+      ("errs", arrJ ((sortDedup (errs.map errName)).map strJ))]
+  | .panic => mkObj [("panic", boolJ true)]
+
+/-- the decision of the real handler, as far as the oracles need it -/
+def implOutcome (impl : Json) : R Outcome :=
+  match jopt impl "panic" with
+  | some _ => .ok .panic
+  | none => do
+    if ← fBool impl "allowed" then return .allowed
+    else return .denied (← fNat impl "code") []
+
+def sizeTag (pfx : String) (n : Nat) : String :=
+  pfx ++ (if n = 0 then "0" else if n = 1 then "1" else if n ≤ 3 then "2-3" else if n ≤ 6 then "4-6" else "7+")
+
+def decisionTag (impl : Json) : String :=
+  match jopt impl "panic" with
+  | some _ => "impl:panic"
+  | none =>
+    match impl.getObjVal? "allowed" with
+    | .ok (.bool true) => "impl:allowed"
+    | _ =>
+      match impl.getObjVal? "errs" with
+      | .ok (.arr a) => "impl:denied:" ++ ((a.toList.head?.bind fun j => j.getStr?.toOption).getD "?")
+      | _ => "impl:denied"
+
+def stepsTags (st : Option Strat) : List String :=
+  match st with
+  | none => ["strat:none"]
+  | some s =>
+    let keys := s.steps.filterMap stepKey
+    let mixed := keys.any (·.1) && keys.any (!·.1)
+    [sizeTag "steps:" s.steps.length, sizeTag "trs:" (s.trs.getD []).length] ++
+    (if mixed then ["types:mixed"] else if keys.any (·.1) then ["types:percent"] else ["types:int"]) ++
+    (if mixed && adjNonDecr keys && !pairNonDecr keys then ["nonadjacent-decrease"] else [])
+
+/-- tags naming the input regions of the six repaired defects -/
+def regionTags (version : String) (obj : Obj) (old : Option Obj) (store : List Stored) (isUpdate : Bool) : List String :=
+  (if version = "v1alpha1" && obj.ref.isNone && obj.canary.isSome then ["region:alpha-no-workloadRef"] else []) ++
+  (match old with
+    | some o => if isUpdate && o.canary.isNone && o.blueGreen.isNone then ["region:old-without-strategy"] else []
+    | none => if isUpdate then ["region:old-absent"] else []) ++
+  (match obj.canary with
+    | some c => if version = "v1alpha1" && c.steps.any (fun s => s.replicas.isSome && !weightOKA s)
+        then ["region:alpha-weight-out-of-range-with-replicas"] else []
+    | none => []) ++
+  (match old, obj.canary with
+    | some o, some c => (match o.canary with
+      | some oc => if isUpdate && oc.steps.length != c.steps.length then ["region:step-count-changed"] else []
+      | none => [])
+    | _, _ => []) ++
+  (match obj.ref with
+    | some r => if store.any (fun st => st.ns = obj.ns && st.name != obj.name &&
+          (match st.ref with | some rr => sameWorkload rr r && rr != r | none => false))
+        then ["region:same-workload-other-apiVersion"] else []
+    | none => [])
+
+def handle : Handler := fun op inp impl => do
+  match op with
+  | "raw" =>
+    let out ← implOutcome impl
+    return { model := .null, holds := [("C09V.total", noPanic out), ("C09V.raw_not_admitted", !accepted out)],
+             tags := ["raw", decisionTag impl] }
+  | "handle" =>
+    let version ← fStr inp "version"
+    let opS ← fStr inp "op"
+    let o : Op ← match opS with
+      | "create" => pure Op.create | "update" => pure Op.update | "other" => pure Op.other
+      | _ => .error s!"bad op {opS}"
+    let limit ← fInt inp "limit"
+    let obj ← objOfJson (← jget inp "obj")
+    let old ← optM objOfJson inp "old"
+    let store ← jlistM storedOfJson (← jget inp "store")
+    let out ← implOutcome impl
+    let acc := accepted out
+    let prog := progressing store obj.ns obj.name
+    let baseTags := [version, "op:" ++ opS, decisionTag impl] ++
+      (if o = .update then [if prog then "phase:immutable" else "phase:mutable"] else []) ++
+      (if o = .update && prog && acc then ["admitted-while-progressing"] else []) ++
+      (if o = .other then ["trivial"] else []) ++ regionTags version obj old store (o = .update)
+    if version = "v1alpha1" then
+      let a := obj.toA
+      let oa := old.map Obj.toA
+      let m := handleA store limit o a oa
+      let checked := acc && o != .other
+      return {
+        model := outcomeJ m
+        holds := [
+          ("C09V.total", noPanic out),
+          ("C09V.ref", !checked || refOKA a),
+          ("C09V.steps", !checked || stepsOKA a),
+          ("C09V.nondecreasing", !checked || nonDecrOKA a),
+          ("C09V.traffic", !checked || trafficRangeOKA a),
+          ("C09V.routing", !checked || routingOKA a),
+          ("C09V.conflict", !checked || (match a.ref with | some r => noConflict store a.ns a.name r | none => false)),
+          ("C09V.immutable", !(checked && o = .update && prog) ||
+              (match oa with | some ol => unchangedA ol a | none => false))]
+        tags := baseTags ++ stepsTags a.canary }
+    else
+      let b ← obj.toB
+      let ob ← match old with
+        | none => pure none
+        | some x => do pure (some (← x.toB))
+      let m := handleB store limit o b ob
+      let checked := acc && o != .other
+      return {
+        model := outcomeJ m
+        holds := [
+          ("C09V.total", noPanic out),
+          ("C09V.ref", !checked || refOKB b),
+          ("C09V.steps", !checked || stepsOKB b),
+          ("C09V.nondecreasing", !checked || nonDecrOKB b),
+          ("C09V.traffic", !checked || trafficRangeOKB b),
+          ("C09V.routing", !checked || routingOKB b),
+          ("C09V.conflict", !checked || noConflict store b.ns b.name b.ref),
+          ("C09V.immutable", !(checked && o = .update && prog) ||
+              (match ob with | some ol => unchangedB ol b | none => false))]
+        tags := baseTags ++ [if b.blueGreen.isSome then "strategy:blueGreen" else "strategy:canary"] ++
+          stepsTags (activeStrat b.canary b.blueGreen) }
+  | _ => .error s!"validate: unknown op {op}"
+
 end RV.Drv.Validate
